@@ -48,6 +48,16 @@ def train():
     return _DF
 
 
+def wide_frame():
+    """72 rows: a 9 x 8 crossing of g and h (more than 64 cells for the factor g:h)."""
+    df = frames.factorial({"g": [f"g{i}" for i in range(1, 10)], "h": [f"h{i}" for i in range(1, 9)]}, reps=1, seed=4)
+    n = len(df)
+    df["f"] = [["fa", "fb", "fc"][i % 3] for i in range(n)]
+    df["f2"] = [["p", "q"][(i // 3) % 2] for i in range(n)]
+    df["k"] = [[9, 10, -2][(i // 2) % 3] for i in range(n)]
+    return df
+
+
 def parse(formula):
     """Structure of a pool formula: common terms and group terms with their variables."""
     rhs = formula.split("~")[1].strip()
@@ -97,6 +107,8 @@ def units(tier, seed):
     u = []
     for d in DESIGNS:
         u.append([{"kind": "placement", "design": d}])
+    for d in ("y ~ (x|g:h)", "y ~ x + (0 + x|h:g) + (1|g)", "y ~ g:h"):  # a crossed factor with more than 64 cells
+        u.append([{"kind": "placement", "design": d, "wide": True}])
     hd = ["y ~ f + (x|g)", "y ~ 0 + f:g + (f|h)"] + (["y ~ C(k) + (0 + f|g:h)", "y ~ S(f) + (x|g) + (1|h)"] if tier == "thorough" else [])
     for d in hd:
         u.append([{"kind": "history", "design": d}])
@@ -221,6 +233,9 @@ def check_placement(case, acc):
 
     d = case["design"]
     set_mode("error")
+    if case.get("wide"):
+        global _DF
+        _DF = wide_frame()
     dm = design_matrices(d, train())
     acc.calls += 1
     used = sorted(atoms_of(d.split("~")[1]) & CATVARS)
